@@ -138,7 +138,9 @@ def insitu_case(ctx, i, rng):
 
 def mutate_operand(rng, e, maxexp=3.0):
     """One step of an operand history on a live edge: replace or modify in place the estimate / a vertex pose / the offset."""
-    targets = ["estimate", "vertex0", "vertex1"] + (["offset"] if getattr(e, "offset", None) is not None else [])
+    targets = ["vertex%d" % j for j in range(min(len(e.vertices), 10))] + (["offset"] if getattr(e, "offset", None) is not None else [])
+    if isinstance(e.estimate, M.BasePose):
+        targets.append("estimate")
     tgt = str(rng.choice(targets))
     how = str(rng.choice(["replace", "in-place"]))
     obj = e.estimate if tgt == "estimate" else e.offset if tgt == "offset" else e.vertices[int(tgt[-1])].pose
